@@ -102,3 +102,232 @@ Proof.
   intros n Hn. eexists. split; [apply lower_module_marks|].
   pose proof (wrap_chain_depth (repeat (probe "m" 0) n)) as H. rewrite repeat_length in H. apply H. exact Hn.
 Qed.
+
+(* ================================================================================================== *)
+(* full nesting height of an expression tree: every child of every node counts *)
+Fixpoint height (e : expr) : nat :=
+  let hs := fix hs (l : list expr) : nat := match l with [] => 0 | x :: r => Nat.max (height x) (hs r) end in
+  let ho := fun (o : option expr) => match o with Some x => height x | None => 0 end in
+  let hos := fix hos (l : list (option expr)) : nat :=
+    match l with [] => 0 | o :: r => Nat.max (match o with Some x => height x | None => 0 end) (hos r) end in
+  let hk := fix hk (l : list (option ident * expr)) : nat :=
+    match l with [] => 0 | (_, x) :: r => Nat.max (height x) (hk r) end in
+  let hg := fix hg (l : list (expr * expr * list expr * bool)) : nat :=
+    match l with
+    | [] => 0
+    | (t, i, ifs, _) :: r => Nat.max (Nat.max (height t) (Nat.max (height i) (hs ifs))) (hg r)
+    end in
+  S match e with
+    | Name _ | Constant _ | Other _ => 0
+    | JoinedStr vs => hs vs
+    | FormattedValue v _ spec => Nat.max (height v) (ho spec)
+    | Starred v | UnaryOp _ v | Attribute v _ | NamedExpr _ v | YieldFrom v | Await v => height v
+    | BinOp l _ r => Nat.max (height l) (height r)
+    | BoolOp _ vs | EList vs | ETuple vs | ESet vs => hs vs
+    | EDict ks vs => Nat.max (hos ks) (hs vs)
+    | Compare l _ cs => Nat.max (height l) (hs cs)
+    | Subscript v s => Nat.max (height v) (height s)
+    | Slice a b c => Nat.max (ho a) (Nat.max (ho b) (ho c))
+    | Call f args kws => Nat.max (height f) (Nat.max (hs args) (hk kws))
+    | Lambda _ _ _ _ kwd _ ds b => Nat.max (hos kwd) (Nat.max (hs ds) (height b))
+    | ListComp x gens | SetComp x gens | GeneratorExp x gens => Nat.max (height x) (hg gens)
+    | DictComp k v gens => Nat.max (height k) (Nat.max (height v) (hg gens))
+    | IfExp t b o => Nat.max (height t) (Nat.max (height b) (height o))
+    | Yield v => ho v
+    end.
+
+Definition heights (l : list expr) : nat := fold_right (fun x a => Nat.max (height x) a) 0 l.
+
+Lemma heights_repeat x n : heights (repeat x n) <= height x.
+Proof. unfold heights. induction n as [|n IH]; cbn [repeat fold_right]; lia. Qed.
+
+Lemma heights_app a b : heights (a ++ b) = Nat.max (heights a) (heights b).
+Proof. unfold heights. induction a as [|x a IH]; cbn [app fold_right]; [reflexivity|]. rewrite IH. lia. Qed.
+
+Lemma height_EList es : height (EList es) = S (heights es).
+Proof. reflexivity. Qed.
+
+Lemma wrap_list_height es : height (wrap cfg_list es) <= S (heights es).
+Proof.
+  destruct es as [|e [|e2 r]]; cbn [wrap cfg_list cfg_chain].
+  - cbn. lia.
+  - cbn. lia.
+  - rewrite height_EList. lia.
+Qed.
+
+(* ---- a long run of statements AFTER an early exit of the same block ---- *)
+Definition guard_stmt : stmt := SIf (probe "c" 1) [SBreak] [].
+Definition guard_prog (n : nat) : list stmt := [SWhile (probe "c" 0) (guard_stmt :: marks n) []].
+
+Lemma tr_probe g f k : n_kind g = NGlobal -> tr g (probe f k) = inl (probe f k).
+Proof. intros Hg. unfold tr, probe. cbn [transf rmap rbind ret]. unfold get_load_name. rewrite Hg. reflexivity. Qed.
+
+Lemma lower_marks_ctx cfg c : n_kind (c_nsp c) = NGlobal -> forall n p br i,
+  lower_block cfg (fun c0 p0 s0 => lower_stmt cfg c0 p0 s0) c p br i (marks n) = inl (repeat (probe "m" 0) n).
+Proof.
+  intros Hg. induction n as [|n IH]; intros p br i; [reflexivity|].
+  cbn [marks repeat lower_block]. fold (marks n).
+  assert (E : lower_stmt cfg c (i :: br :: p) (SExpr (probe "m" 0)) = inl [probe "m" 0]).
+  { cbn [lower_stmt]. rewrite tr_probe by exact Hg. reflexivity. }
+  rewrite E. cbn [rbind is_interrupt].
+  destruct n as [|n']; [reflexivity|].
+  change (marks (S n')) with (SExpr (probe "m" 0) :: marks n') in *. rewrite (IH p br (S i)). cbn [rbind].
+  unfold guard_of. destruct (c_loops c) as [|l ls]; [rewrite Hg; reflexivity|].
+  reflexivity.
+Qed.
+
+Lemma lower_guard_while g n : n_kind g = NGlobal ->
+  lower_stmt cfg_list (mkCtx g [] false) [0; 0] (SWhile (probe "c" 0) (guard_stmt :: marks (S n)) []) =
+  inl [NamedExpr "__ol_break_0_0_" cfalse;
+       while_comp "__ol_while_0_0_"
+         (EList
+            [NamedExpr "__ol_interrupt_0_0_" cfalse;
+             IfExp (probe "c" 1)
+                   (EList [NamedExpr "__ol_break_0_0_" ctrue; NamedExpr "__ol_interrupt_0_0_" ctrue])
+                   ellipsis;
+             guarded cfg_list "__ol_interrupt_0_0_" (repeat (probe "m" 0) (S n))])
+         (BoolOp And [UnaryOp Not (Name "__ol_break_0_0_"); probe "c" 0])].
+Proof.
+  intros Hk.
+  assert (HB : brk_block (guard_stmt :: marks (S n)) = true) by reflexivity.
+  assert (HU : uses_flag mi_loop (guard_stmt :: marks (S n)) = true) by reflexivity.
+  cbn [lower_stmt]. rewrite HB, HU. cbn [c_nsp c_loops c_ret_used].
+  cbn [lower_block].
+  match goal with |- context [lower_block cfg_list _ ?c _ _ _ (marks (S n))] =>
+    rewrite (lower_marks_ctx cfg_list c Hk (S n)) end.
+  match goal with |- context [lower_stmt cfg_list ?c ?p guard_stmt] =>
+    assert (E : lower_stmt cfg_list c p guard_stmt =
+                inl [IfExp (probe "c" 1)
+                       (EList [NamedExpr "__ol_break_0_0_" ctrue; NamedExpr "__ol_interrupt_0_0_" ctrue]) ellipsis])
+  end.
+  { unfold guard_stmt. cbn [lower_stmt lower_block c_nsp c_loops rbind ret is_interrupt]. rewrite tr_probe by exact Hk.
+    reflexivity. }
+  rewrite E. rewrite tr_probe by exact Hk. reflexivity.
+Qed.
+
+Lemma marks_ex_live f : (forall e, f (SExpr e) = false) -> forall n, ex_live f (marks n) = false.
+Proof. intros Hf. induction n as [|n IH]; [reflexivity|]. cbn [marks repeat ex_live is_interrupt]. rewrite Hf. exact IH. Qed.
+
+Lemma marks_not_visited f : (forall e, f (SExpr e) = false) -> forall n, ex_live (visits f) (marks n) = false.
+Proof. intros Hf. apply marks_ex_live. intros e. cbn [visits]. rewrite Hf. reflexivity. Qed.
+
+Definition guard_out (rest : list expr) : expr :=
+  EList
+    [import_lib "itertools";
+     NamedExpr "__ol_break_0_0_" cfalse;
+     while_comp "__ol_while_0_0_"
+       (EList
+          [NamedExpr "__ol_interrupt_0_0_" cfalse;
+           IfExp (probe "c" 1)
+                 (EList [NamedExpr "__ol_break_0_0_" ctrue; NamedExpr "__ol_interrupt_0_0_" ctrue])
+                 ellipsis;
+           guarded cfg_list "__ol_interrupt_0_0_" rest])
+       (BoolOp And [UnaryOp Not (Name "__ol_break_0_0_"); probe "c" 0])].
+
+Lemma lower_guard_prog n :
+  lower_module cfg_list top_symtab (guard_prog (S n)) = inl (guard_out (repeat (probe "m" 0) (S n))).
+Proof.
+  unfold lower_module. destruct (module_nsp (cfg_host_lt_312 cfg_list)) as [g [Hg [Hk _]]]. rewrite Hg. cbn [rbind].
+  unfold guard_prog. cbn [lower_block]. rewrite (lower_guard_while g n Hk). cbn [rbind is_interrupt ret].
+  cbn [existsb visits ex_live is_interrupt guard_stmt orb].
+  rewrite !marks_not_visited by (intros e; reflexivity).
+  reflexivity.
+Qed.
+
+
+Lemma guard_out_height rest : heights rest <= 2 -> height (guard_out rest) <= 7.
+Proof.
+  intros H. pose proof (wrap_list_height rest) as W.
+  unfold guard_out, while_comp, guarded, import_lib, probe, call, cfalse, ctrue, ellipsis.
+  remember (wrap cfg_list rest) as w eqn:Ew. clear Ew.
+  cbn [height]. change (height (cstr "itertools")) with 1.
+  assert (Hw : height w <= 3) by lia. clear W H. remember (height w) as hw eqn:E. clear E.
+  destruct hw as [|[|[|[|hw]]]]; [vm_compute; lia ..|lia].
+Qed.
+
+
+(* list wrapper: an early exit followed by ANY number of statements in the same block is an expression of height 7:
+   the rest of the block sits under ONE test of the exit's flag, not one nesting level per statement *)
+Theorem guarded_statements_height_list : forall n,
+  exists e, lower_module cfg_list top_symtab (guard_prog n) = inl e /\ height e <= 7.
+Proof.
+  intros [|n].
+  - eexists. split; [vm_compute; reflexivity|]. vm_compute. lia.
+  - eexists. split; [apply lower_guard_prog|]. apply guard_out_height.
+    etransitivity; [apply heights_repeat|]. vm_compute. lia.
+Qed.
+
+(* ---- the same after a `continue` of a for loop ---- *)
+Definition cont_stmt : stmt := SIf (probe "c" 1) [SContinue] [].
+Definition cont_prog (n : nat) : list stmt := [SFor (Name "x") (probe "it" 0) (cont_stmt :: marks n) []].
+
+Definition cont_out (rest : list expr) : expr :=
+  ListComp
+    (EList
+       [NamedExpr "__ol_interrupt_0_0_" cfalse;
+        NamedExpr "x" (Name "__ol_for_0_0_");
+        IfExp (probe "c" 1) (EList [NamedExpr "__ol_interrupt_0_0_" ctrue]) ellipsis;
+        guarded cfg_list "__ol_interrupt_0_0_" rest])
+    [(Name "__ol_for_0_0_", probe "it" 0, [], false)].
+
+Lemma lower_cont_for g n : n_kind g = NGlobal ->
+  lower_stmt cfg_list (mkCtx g [] false) [0; 0] (SFor (Name "x") (probe "it" 0) (cont_stmt :: marks (S n)) []) =
+  inl [cont_out (repeat (probe "m" 0) (S n))].
+Proof.
+  intros Hk.
+  assert (HB : brk_block (cont_stmt :: marks (S n)) = false).
+  { unfold brk_block. cbn [ex_live cont_stmt brk_loop is_interrupt orb]. apply marks_ex_live. reflexivity. }
+  assert (HU : uses_flag mi_loop (cont_stmt :: marks (S n)) = true) by reflexivity.
+  assert (HM : mi_block (cont_stmt :: marks (S n)) = true) by reflexivity.
+  cbn [lower_stmt]. rewrite HB, HU, HM. cbn [c_nsp c_loops c_ret_used].
+  cbn [lower_block].
+  match goal with |- context [lower_block cfg_list _ ?c _ _ _ (marks (S n))] =>
+    rewrite (lower_marks_ctx cfg_list c Hk (S n)) end.
+  match goal with |- context [lower_stmt cfg_list ?c ?p cont_stmt] =>
+    assert (E : lower_stmt cfg_list c p cont_stmt =
+                inl [IfExp (probe "c" 1) (EList [NamedExpr "__ol_interrupt_0_0_" ctrue]) ellipsis])
+  end.
+  { unfold cont_stmt. cbn [lower_stmt lower_block c_nsp c_loops rbind ret is_interrupt]. rewrite tr_probe by exact Hk.
+    reflexivity. }
+  rewrite E. rewrite tr_probe by exact Hk. cbn [assign_auto]. unfold get_assign. rewrite Hk. reflexivity.
+Qed.
+
+Lemma lower_cont_prog n :
+  lower_module cfg_list top_symtab (cont_prog (S n)) = inl (cont_out (repeat (probe "m" 0) (S n))).
+Proof.
+  unfold lower_module. destruct (module_nsp (cfg_host_lt_312 cfg_list)) as [g [Hg [Hk _]]]. rewrite Hg. cbn [rbind].
+  unfold cont_prog. cbn [lower_block]. rewrite (lower_cont_for g n Hk). cbn [rbind is_interrupt ret].
+  assert (HB : brk_block (cont_stmt :: marks (S n)) = false).
+  { unfold brk_block. cbn [ex_live cont_stmt brk_loop is_interrupt orb]. apply marks_ex_live. reflexivity. }
+  cbn [existsb visits orb]. rewrite HB.
+  cbn [ex_live visits is_interrupt cont_stmt orb].
+  rewrite !marks_not_visited by (intros e; reflexivity).
+  reflexivity.
+Qed.
+
+Lemma cont_out_height rest : heights rest <= 2 -> height (cont_out rest) <= 6.
+Proof.
+  intros H. pose proof (wrap_list_height rest) as W.
+  unfold cont_out, guarded, probe, call, cfalse, ctrue, ellipsis.
+  remember (wrap cfg_list rest) as w eqn:Ew. clear Ew.
+  cbn [height].
+  assert (Hw : height w <= 3) by lia. clear W H. remember (height w) as hw eqn:E. clear E.
+  destruct hw as [|[|[|[|hw]]]]; [vm_compute; lia ..|lia].
+Qed.
+
+Theorem continued_statements_height_list : forall n,
+  exists e, lower_module cfg_list top_symtab (cont_prog n) = inl e /\ height e <= 6.
+Proof.
+  intros [|n].
+  - eexists. split; [vm_compute; reflexivity|]. vm_compute. lia.
+  - eexists. split; [apply lower_cont_prog|]. apply cont_out_height.
+    etransitivity; [apply heights_repeat|]. vm_compute. lia.
+Qed.
+
+(* the plain statement family again, for the full height (every child of every node counted) *)
+Theorem statements_height_list : forall n, exists e, lower_module cfg_list top_symtab (marks n) = inl e /\ height e <= 3.
+Proof.
+  intros n. eexists. split; [apply lower_module_marks|].
+  etransitivity; [apply wrap_list_height|]. apply le_n_S. etransitivity; [apply heights_repeat|]. vm_compute. lia.
+Qed.
+
